@@ -28,6 +28,7 @@ ASSUMPTIONS = [
     "the clock is substituted: bptkServer.datetime / externalStateAdapter.datetime are replaced by a shim whose now() the harness controls (real timedelta)",
     "accessing an expired instance itself before any sweep is not asserted either way (statement wording); the reference then follows the server's answer",
     "expiry is at elapsed >= timeout (available while less than the timeout has elapsed)",
+    "'externalised' is read off the external store (a state file for the id exists when the request arrives), not inferred from the requests made",
 ]
 
 SM, SC = "smC17", "base"
@@ -117,6 +118,7 @@ def check_case(case):
         return clock.t
 
     unknown = {}
+    open_streams = []
 
     def unknown_answer(how):
         """what this server build answers for an id that never existed (asked of a separate, empty server)"""
@@ -163,9 +165,19 @@ def check_case(case):
                                     "op #%d %r: instance #%d (externalised, timeout %dus, idle %s) was removed from memory although not expired"
                                     % (opno, op, ids.index(i), tout[i], now() - last[i])))
 
+    def refresh_externalised():
+        """'its state was externalised' = the external store holds a state for the id (observed in the store itself)"""
+        externalised.clear()
+        if adir is not None:
+            import os
+            for i_ in ids:
+                if os.path.exists(os.path.join(adir, i_ + ".json")):
+                    externalised.add(i_)
+
     try:
         for opno, op in enumerate(case["ops"]):
             kind = op[0]
+            refresh_externalised()
             if kind == "create" and len(op) > 2 and op[2] == "batch":
                 # several instances from one /start-instances request; no session is begun on them
                 td = op[1]
@@ -258,11 +270,25 @@ def check_case(case):
                     resp = client.get("/%s/session-results" % i)
                 elif how == "end-session":
                     resp = client.post("/%s/end-session" % i)
+                elif how == "open-stream":
+                    # a client that opens a stream, reads the first chunks and then stalls: the session lock stays taken
+                    resp = client.post("/%s/stream-steps" % i, buffered=False)
+                    if resp.status_code == 200:
+                        try:
+                            it = iter(resp.response)
+                            for _ in range(3):
+                                next(it)
+                        except StopIteration:
+                            pass
+                        open_streams.append(resp)
                 else:
                     resp = client.post("/%s/begin-session" % i, json={"scenario_managers": [SM], "scenarios": [SC], "equations": ["s"]})
                 # served = anything but the answer an unknown id gets (an instance without a session answers run-step with an
                 # error of its own, which is still an access)
-                ok = (resp.status_code, resp.get_data()) != unknown_answer(how)
+                if how == "open-stream":
+                    ok = resp.status_code == 200 or (resp.status_code, resp.get_data()) != unknown_answer("stream-steps")
+                else:
+                    ok = (resp.status_code, resp.get_data()) != unknown_answer(how)
                 if not was_gone and not was_expired:
                     if not ok:
                         vs.append(Violation("alive-refused:" + how, "op #%d %r: instance #%d (timeout %dus, idle %s) is alive but %s -> %d %r"
@@ -289,12 +315,7 @@ def check_case(case):
                         last[i] = now()
                     else:
                         gone.add(i)
-                if ok and how == "run-step" and adapter is not None:
-                    # the handler writes the instance state after every run-step that reached the instance, also when the
-                    # instance has no session to step (its state is then empty, but it is externalised)
-                    externalised.add(i)
-                if ok and how == "begin-session" and i in externalised and adapter is not None:
-                    pass
+                refresh_externalised()
                 if ok:
                     # only a request that reached an existing instance is an 'access to another instance'
                     sweep("access-to-another-instance", opno, op, exclude=i)
@@ -312,6 +333,11 @@ def check_case(case):
                     vs.append(Violation("destroyed-while-held", "a held instance had destroy() called %d times" % n))
                     break
     finally:
+        for r_ in open_streams:
+            try:
+                r_.close()
+            except Exception:
+                pass
         srv.datetime, esa.datetime = old_srv, old_esa
         for b in made:
             try:
@@ -360,7 +386,7 @@ def case_strategy():
                 else:
                     ops.append(["advance", draw(st.integers(0, 3)), mode, eps])
             elif k == "access":
-                ops.append(["access", draw(st.integers(0, 3)), draw(st.sampled_from(["keep-alive", "run-step", "session-results", "begin-session", "run-step", "end-session"]))])
+                ops.append(["access", draw(st.integers(0, 3)), draw(st.sampled_from(["keep-alive", "run-step", "session-results", "begin-session", "run-step", "end-session", "open-stream"]))])
             else:
                 ops.append([k])
         return {"adapter": draw(st.booleans()), "ops": ops}
